@@ -12,12 +12,25 @@ struct verif_ghost __verif_g;
 static NvmModule *mk_module(void)
 {
     NvmModule *m = malloc(sizeof(NvmModule)); __CPROVER_assume(m != NULL);
-    __CPROVER_assume(m->string_count <= 1 && m->code_size <= 3 && m->function_count <= 1 && m->debug_count <= 1 && m->import_count <= 1);
-    m->strings = malloc(sizeof(char *)); m->string_lengths = malloc(sizeof(uint32_t));
+    __CPROVER_assume(m->string_count <= 2 && m->code_size <= 3 && m->function_count <= 1 && m->debug_count <= 1 && m->import_count <= 1);
+#ifdef VERIF_RT_ONLY      /* case split over the single section kind present (1 code, 2 strings, 3 functions, 9 debug, 8 imports) */
+    if (VERIF_RT_ONLY != 2) m->string_count = 0;
+    if (VERIF_RT_ONLY != 1) m->code_size = 0;
+    if (VERIF_RT_ONLY != 3) m->function_count = 0;
+    if (VERIF_RT_ONLY != 9) m->debug_count = 0;
+    if (VERIF_RT_ONLY != 8) m->import_count = 0;
+#else
+    __CPROVER_assume(m->string_count <= 1);
+#endif
+    m->strings = malloc(2 * sizeof(char *)); m->string_lengths = malloc(2 * sizeof(uint32_t));
     __CPROVER_assume(m->strings && m->string_lengths);
-    m->strings[0] = malloc(3); __CPROVER_assume(m->strings[0]);
-    __CPROVER_assume(m->string_lengths[0] <= 2);
-    m->strings[0][m->string_lengths[0]] = 0;
+    m->strings[0] = malloc(3); m->strings[1] = malloc(3); __CPROVER_assume(m->strings[0] && m->strings[1]);
+    __CPROVER_assume(m->string_lengths[0] <= 2 && m->string_lengths[1] <= 2);
+    m->strings[0][m->string_lengths[0]] = 0; m->strings[1][m->string_lengths[1]] = 0;
+    /* the string pool never holds duplicates (every producer goes through the de-duplicating nvm_add_string) */
+    __CPROVER_assume(m->string_count < 2 || m->string_lengths[0] != m->string_lengths[1] ||
+                     (m->string_lengths[0] >= 1 && m->strings[0][0] != m->strings[1][0]) ||
+                     (m->string_lengths[0] == 2 && m->strings[0][1] != m->strings[1][1]));
     m->code = malloc(3); __CPROVER_assume(m->code);
     m->functions = malloc(sizeof(NvmFunctionEntry)); __CPROVER_assume(m->functions);
     m->debug_entries = malloc(sizeof(NvmDebugEntry)); __CPROVER_assume(m->debug_entries);
@@ -36,15 +49,22 @@ void h_rt(void)
     uint8_t *buf = nvm_serialize(m, &size);
     __CPROVER_assume(buf != NULL);
     NvmModule *r = nvm_deserialize(buf, size);
+#ifdef VERIF_RT_ASSUME_ACCEPT
+    /* C10.rt.fields: acceptance (the checksum recomputed by the loader equals the stored one: two CRC chains over
+       ~110 symbolic bytes, > 15 min on SAT) is the separate obligation C10.rt; here it is assumed and only the
+       field-by-field equality of an ACCEPTED reload is checked */
+    __CPROVER_assume(r != NULL);
+#else
     __CPROVER_assert(r != NULL, "C10.rt the loader accepts what the serializer produced");
+#endif
     if (r != NULL) {
         __CPROVER_assert(r->header.flags == m->header.flags && r->header.entry_point == m->header.entry_point, "C10.rt flags and entry point");
         __CPROVER_assert(r->code_size == m->code_size, "C10.rt code size");
         for (uint32_t i = 0; i < 3; i++) if (i < m->code_size) __CPROVER_assert(r->code[i] == m->code[i], "C10.rt code bytes");
         __CPROVER_assert(r->string_count == m->string_count, "C10.rt string count");
-        if (m->string_count == 1) {
-            __CPROVER_assert(r->string_lengths[0] == m->string_lengths[0], "C10.rt string length");
-            for (uint32_t i = 0; i < 2; i++) if (i < m->string_lengths[0]) __CPROVER_assert(r->strings[0][i] == m->strings[0][i], "C10.rt string bytes");
+        for (uint32_t k = 0; k < 2; k++) if (k < m->string_count && k < r->string_count) {
+            __CPROVER_assert(r->string_lengths[k] == m->string_lengths[k], "C10.rt string length");
+            for (uint32_t i = 0; i < 2; i++) if (i < m->string_lengths[k]) __CPROVER_assert(r->strings[k][i] == m->strings[k][i], "C10.rt string bytes");
         }
         __CPROVER_assert(r->function_count == m->function_count, "C10.rt function count");
         if (m->function_count == 1) {
@@ -64,7 +84,11 @@ void h_rt(void)
             if (m->imports[0].param_count == 1) __CPROVER_assert(r->import_param_types[0][0] == m->import_param_types[0][0], "C10.rt import param type");
         }
     }
+#ifdef VERIF_RT_ONLY
+    VERIF_COVER(r != NULL && (m->string_count == 2 || m->function_count == 1 || m->import_count == 1 || m->code_size == 3 || m->debug_count == 1));
+#else
     VERIF_COVER(r != NULL && m->string_count == 1 && m->function_count == 1 && m->import_count == 1 && m->code_size == 3);
+#endif
 }
 
 /* C10.idem: serialising the reloaded module again gives identical bytes */
